@@ -65,6 +65,7 @@ mod verif_replay_c15b {
         let extractor = v["extractor"].as_str().unwrap_or("").to_string();
         let bytes: Option<Vec<u8>> = v["bytes"].as_array().map(|a| a.iter().map(|x| x.as_u64().unwrap_or(0) as u8).collect());
         let fails = v["parser_fails"].as_bool().unwrap_or(false);
+        let trailing = v["trailing"].as_bool().unwrap_or(false);
         let mut headers = http::HeaderMap::new();
         if v["other_first"].as_bool().unwrap_or(false) {
             headers.append(http::header::CONTENT_LENGTH, http::HeaderValue::from_static("3"));
@@ -87,7 +88,9 @@ mod verif_replay_c15b {
                 let doc = if fails {
                     if json { "{\"k\": ".to_string() } else { "q=1".to_string() }
                 } else if json {
-                    serde_json::to_string(&serde_json::json!({ "k": text })).unwrap()
+                    let d = serde_json::to_string(&serde_json::json!({ "k": text })).unwrap();
+                    // a complete JSON value followed by characters that are not whitespace
+                    if trailing { format!("{d}{{\"k\":\"other\"}}") } else { d }
                 } else {
                     format!("k={}", pct(&text))
                 };
@@ -116,7 +119,7 @@ mod verif_replay_c15b {
                 println!("C15B-REPLAY outcome: header={header:?} doc={doc:?} accepted(doc-level)={accepted:?} -> kind={kind} value={value:?}");
                 match accepted {
                     Some(true) => {
-                        if fails {
+                        if fails || (json && trailing) {
                             if kind != 3 {
                                 problems.push(format!("a malformed document under an accepted media type ended as kind {kind}, not as a deserialization error"));
                             }
